@@ -228,10 +228,24 @@ class Ctx(object):
 
     # ------------------------------------------------------------------ OCaml (extracted models)
     def ocaml_driver(self, name):
-        """Path of a driver built by setup (ocaml/_build/<name>); rebuilt if missing."""
+        """Path of an extracted-model driver (ocaml/_build/<name>), rebuilt when stale."""
         exe = os.path.join(VERIF, "ocaml", "_build", name)
-        if not os.path.exists(exe):
-            sh(["bash", os.path.join(VERIF, "bin", "setup"), "--ocaml-only"], timeout=1800)
+        stale = not os.path.exists(exe)
+        if not stale:
+            t = os.path.getmtime(exe)
+            src = [os.path.join(VERIF, "ocaml", name + ".ml"), os.path.join(VERIF, "ocaml", "glue.ml.inc")]
+            src += glob.glob(os.path.join(VERIF, "ocaml", "Extract_*.v"))
+            src += [p for p in glob.glob(os.path.join(COQDIR, "**", "*.v"), recursive=True)
+                    if os.sep + "Gen" + os.sep not in p and not os.path.basename(p).startswith("Properties_")]
+            stale = any(os.path.getmtime(p) > t for p in src if os.path.exists(p))
+        if stale:
+            lock = open(os.path.join(VERIF, "ocaml", ".lock"), "w")
+            fcntl.flock(lock, fcntl.LOCK_EX)
+            try:
+                sh(["bash", os.path.join(VERIF, "bin", "setup"), "--ocaml-only"], timeout=2400)
+            finally:
+                fcntl.flock(lock, fcntl.LOCK_UN)
+                lock.close()
         if not os.path.exists(exe):
             raise BuildError("extracted driver %s is not built" % name)
         return exe
@@ -340,10 +354,14 @@ def ensure_coq_makefile():
 
 
 def load_known():
-    p = os.path.join(VERIF, "known_findings.json")
-    if not os.path.exists(p):
-        return []
-    return json.load(open(p))["findings"]
+    """known_findings.json plus known_findings.d/*.json (same format), merged."""
+    out = []
+    paths = [os.path.join(VERIF, "known_findings.json")]
+    paths += sorted(glob.glob(os.path.join(VERIF, "known_findings.d", "*.json")))
+    for p in paths:
+        if os.path.exists(p):
+            out += json.load(open(p))["findings"]
+    return out
 
 
 def match_known(prop, sig, known):
